@@ -471,7 +471,23 @@ def _sentinel_discipline(ctx: Ctx):
     ctx.floor("consumers of marker-yielding generators", n, 1)
 
 
+def _special_registration(ctx: Ctx):
+    """The python plugin registers, per generated class, the attributes that are always written (null-admitting or string
+    literal).  Folded on synthetic definitions (structure with extends + mixins, anonymous literal, `and` type): the
+    registered names are exactly the snake_case attribute names of those properties, inherited ones included."""
+    from .. import flatten
+    idx = Index(ctx.src, dirs=("generator",))
+    res = flatten.fold_python_specials(idx)
+    for label, (got, want) in sorted(res.items()):
+        ctx.check(got == want, "special-names-are-attribute-names", f"python:{label}",
+                  f"for a synthetic {label} the python plugin registers the always-written attributes {got}; the null-admitting "
+                  f"/ literal properties are {want} (attribute names as generated)", flatten.P_PYUTILS, None,
+                  sample={"case": label, "registered": got})
+    ctx.floor("special-registration cases folded", len(res), 3)
+
+
 def run(ctx: Ctx):  # noqa: F811
     _run_c06(ctx)
     _flatten_agreement(ctx)
     _sentinel_discipline(ctx)
+    _special_registration(ctx)
